@@ -574,6 +574,37 @@ func (g *c18Gen) specForW(bodies []*gen.Body, kinds map[string]int) hcldec.Spec 
 	return obj
 }
 
+type c18Prog struct {
+	dsrc string
+	spec hcldec.Spec
+	sc   *gen.Scope
+}
+
+// c18Build generates one body with dynamic blocks and a spec for it (used by C17).
+func c18Build(r *rand.Rand) *c18Prog {
+	sc := gen.NewScope(r, gen.ValOpts{StrLevel: 1})
+	sc.Set("f", cty.BoolVal(gen.Chance(r, 0.5)))
+	g := &c18Gen{r: r, sc: sc, labelCounts: map[string]int{}}
+	tree := g.body(3)
+	if g.nGroups == 0 {
+		return nil
+	}
+	ctx := evalCtx(sc)
+	var dsb strings.Builder
+	renderD(tree, "", &dsb)
+	wbody, msg := writeOut(tree, nil, ctx, nil)
+	if msg != "" {
+		return nil
+	}
+	shapeMode = true
+	shape, smsg := writeOut(tree, nil, ctx, nil)
+	shapeMode = false
+	if smsg != "" {
+		return nil
+	}
+	return &c18Prog{dsrc: dsb.String(), spec: g.specForW([]*gen.Body{wbody, shape}, map[string]int{}), sc: sc}
+}
+
 func c18Case(c *core.Case) {
 	r := c.Rng
 	sc := gen.NewScope(r, gen.ValOpts{StrLevel: 1})
